@@ -154,6 +154,11 @@ fn eval_cond<M: Drv>(m: &M, hd: &Handles, c: &Value) -> bool {
 }
 
 const MAX_OBS: usize = 150;
+/// the bound on condition evaluations of one close (MODEL_DRIVER_MAX_OBS overrides the default: generated
+/// programs, whose chase need not terminate, are run with a small one)
+fn max_obs() -> usize {
+    std::env::var("MODEL_DRIVER_MAX_OBS").ok().and_then(|v| v.parse().ok()).unwrap_or(MAX_OBS)
+}
 
 /// History steps name elements by *handle*: the k-th element of that type the caller obtained from
 /// new_ / new_enum / define_ calls.  Events carry the real ids.
@@ -244,7 +249,7 @@ pub fn run_history<M: Drv>(h: &Value, out: &RefCell<Vec<String>>) {
                         Some(c) => eval_cond(st, &hd, c),
                         None => stop >= 0 && i as i64 == stop,
                     };
-                    if i >= MAX_OBS {
+                    if i >= max_obs() {
                         over.set(true);
                         c = true;
                     }
